@@ -25,7 +25,7 @@ def main() -> None:
             x.real["inline_call_args"] = True
             x.name += "_inl"
         for s in shp.core_shapes() + shp.vtype_shapes(["bool", "tuple", "date", "dataclass", "dict"]) + \
-                [x for x in shp.load_shapes() if "load-before-producer" not in x.tags] + inl + shp.graph_shapes() + shp.tworoot_shapes():
+                [x for x in shp.load_shapes() if "load-before-producer" not in x.tags] + inl + shp.graph_shapes() + shp.tworoot_shapes() + shp.callarg_shapes():
             for layout in (["one", "split"] if s.name in ("chain", "shared", "ld_df") else ["one"]):
                 name = "gen_%s_%s" % (s.name, layout)
                 d = os.path.join(corpus, name)
@@ -41,7 +41,7 @@ def main() -> None:
                 for r in s.roots:
                     for st in r["styles"]:
                         evals.append({"id": "%s_%s" % (r["f"], st), "module": mods[r["f"]], "root": r["f"], "style": st,
-                                      "root_path": r["path"]})
+                                      "root_path": r["path"], "args": [0] if r.get("arg") else []})
                 with open(os.path.join(d, "manifest.json"), "w") as f:
                     json.dump({"modules": sorted(set(mods.values())), "accept": ["vpkg"], "evals": evals}, f, indent=1)
     pinned = envprops.run_corpus(corpus, {"hashseed": "0"})
